@@ -18,6 +18,7 @@
 package verifsimrt
 
 import (
+	"context"
 	"crypto/sha256"
 	"encoding/binary"
 	"encoding/hex"
@@ -472,6 +473,81 @@ func Close[T any](site string, c chan<- T) {
 
 func ZeroOf[T any](c <-chan T) (v T, ok bool) { return }
 func ZeroSend[T any](c chan<- T) (v T)        { return }
+
+// ---------------------------------------------------------------------------
+// contexts with deadlines
+//
+// context.WithTimeout / WithDeadline cancel from a runtime timer goroutine that
+// the scheduler does not control; when the deadline coincides with another
+// timer (a ticker, say) the order of the two effects is decided by the Go
+// runtime. Instrumented code therefore gets a context whose expiry is performed
+// by a task.
+
+type simCtx struct {
+	context.Context // parent: Value lookups
+	mu              sync.Mutex
+	done            chan struct{}
+	err             error
+	deadline        time.Time
+}
+
+func (c *simCtx) Deadline() (time.Time, bool) { return c.deadline, true }
+func (c *simCtx) Done() <-chan struct{}       { return c.done }
+func (c *simCtx) Err() error {
+	c.mu.Lock()
+	defer c.mu.Unlock()
+	return c.err
+}
+
+func (c *simCtx) cancel(err error) {
+	c.mu.Lock()
+	if c.err == nil {
+		c.err = err
+		close(c.done)
+	}
+	c.mu.Unlock()
+}
+
+// CtxWithTimeout replaces context.WithTimeout.
+func CtxWithTimeout(site string, parent context.Context, d time.Duration) (context.Context, context.CancelFunc) {
+	if S == nil {
+		return context.WithTimeout(parent, d)
+	}
+	return CtxWithDeadline(site, parent, time.Now().Add(d))
+}
+
+// CtxWithDeadline replaces context.WithDeadline.
+func CtxWithDeadline(site string, parent context.Context, dl time.Time) (context.Context, context.CancelFunc) {
+	s := S
+	if s == nil {
+		return context.WithDeadline(parent, dl)
+	}
+	if pd, ok := parent.Deadline(); ok && pd.Before(dl) {
+		dl = pd
+	}
+	c := &simCtx{Context: parent, done: make(chan struct{}), deadline: dl}
+	tm := AfterFunc(site+"(deadline)", time.Until(dl), func() {
+		Yield(site + "(expire)")
+		c.cancel(context.DeadlineExceeded)
+	})
+	if pdone := parent.Done(); pdone != nil {
+		s.spawn(site+"(ctx-parent)", true, func() {
+			Yield(site + "(ctx-parent)")
+			select {
+			case <-pdone:
+				PostOp(site + "(ctx-parent)")
+				c.cancel(parent.Err())
+			case <-c.done:
+				PostOp(site + "(ctx-parent)")
+			}
+		})
+	}
+	return c, func() {
+		Yield(site + "(cancel)")
+		tm.Stop()
+		c.cancel(context.Canceled)
+	}
+}
 
 // ---------------------------------------------------------------------------
 // locks
